@@ -117,7 +117,9 @@ type Operator[V any] struct {
 	// This is usually the case, there are only special corner cases where it is not.
 	// So IsPure is usually true.
 	IsPure bool
-	// IsCommutative is true if the operation is commutative
+	// IsCommutative is true if the operation is commutative and associative, and if
+	// both operands are always evaluated. The optimizer uses this flag to regroup
+	// the constant operands of a chain of operations: (2*x)*3 becomes 6*x.
 	IsCommutative bool
 }
 
